@@ -167,7 +167,53 @@ func payloadRR(kind, qname string, i, want int) (rr dns.RR, wire int) {
 	}
 }
 
-func ownOPT(variant int) (opt *dns.OPT) {
+// Own-OPT variants 3..5 are what an UPSTREAM puts into its answers; they are
+// only used behind the ECS-cache middleware, which documents that it removes
+// every option but the Extended DNS Error from an upstream's OPT:
+//
+//	3  EDE + the hop-by-hop options the forwarded query asked for (padding,
+//	   keep-alive, cookie, NSID)
+//	4  EDE + padding + keep-alive + NSID + cookie, unsolicited
+//	5  padding + keep-alive without EDE
+func ownOPT(variant int, req *dns.Msg) (opt *dns.OPT) {
+	ede := &dns.EDNS0_EDE{InfoCode: dns.ExtendedErrorCodeStaleAnswer, ExtraText: "h8"}
+	pad := &dns.EDNS0_PADDING{Padding: make([]byte, 12)}
+	ka := &dns.EDNS0_TCP_KEEPALIVE{Code: dns.EDNS0TCPKEEPALIVE, Timeout: 100}
+	nsid := &dns.EDNS0_NSID{Code: dns.EDNS0NSID, Nsid: "7570"}
+	cookie := &dns.EDNS0_COOKIE{Code: dns.EDNS0COOKIE, Cookie: "0102030405060708aabbccddeeff0011"}
+
+	switch variant {
+	case 3:
+		opt = &dns.OPT{Hdr: dns.RR_Header{Name: ".", Rrtype: dns.TypeOPT}, Option: []dns.EDNS0{ede}}
+		opt.SetUDPSize(1232)
+		if ro := req.IsEdns0(); ro != nil {
+			for _, o := range ro.Option {
+				switch o.Option() {
+				case dns.EDNS0PADDING:
+					opt.Option = append(opt.Option, pad)
+				case dns.EDNS0TCPKEEPALIVE:
+					opt.Option = append(opt.Option, ka)
+				case dns.EDNS0NSID:
+					opt.Option = append(opt.Option, nsid)
+				case dns.EDNS0COOKIE:
+					opt.Option = append(opt.Option, cookie)
+				}
+			}
+		}
+
+		return opt
+	case 4:
+		opt = &dns.OPT{Hdr: dns.RR_Header{Name: ".", Rrtype: dns.TypeOPT}, Option: []dns.EDNS0{pad, ede, ka, nsid, cookie}}
+		opt.SetUDPSize(1232)
+
+		return opt
+	case 5:
+		opt = &dns.OPT{Hdr: dns.RR_Header{Name: ".", Rrtype: dns.TypeOPT}, Option: []dns.EDNS0{pad, ka}}
+		opt.SetUDPSize(1232)
+
+		return opt
+	}
+
 	switch variant {
 	case 1:
 		opt = &dns.OPT{Hdr: dns.RR_Header{Name: ".", Rrtype: dns.TypeOPT}}
@@ -232,6 +278,35 @@ func buildResp(req *dns.Msg) (m *dns.Msg, sh shape, size int, err error) {
 		return nil, sh, 0, fmt.Errorf("c08: %d questions", len(req.Question))
 	}
 
+	sh, err = parseShape(req.Question[0].Name)
+	if err != nil {
+		return nil, sh, 0, err
+	}
+
+	if sh.OwnOPT < 3 {
+		return buildRespVariant(req, sh.OwnOPT)
+	}
+
+	// An upstream's OPT depends on the options of the query it was sent; the
+	// records must not (a cached answer is compared with the model of a later
+	// client), so they are sized without it and the OPT is added afterwards.
+	m, sh, _, err = buildRespVariant(req, 0)
+	if err != nil {
+		return nil, sh, 0, err
+	}
+
+	m.Extra = append(m.Extra, ownOPT(sh.OwnOPT, req))
+	size, err = packedLen(m)
+
+	return m, sh, size, err
+}
+
+// buildRespVariant is buildResp with the given own-OPT variant (0..2).
+func buildRespVariant(req *dns.Msg, variant int) (m *dns.Msg, sh shape, size int, err error) {
+	if len(req.Question) != 1 {
+		return nil, sh, 0, fmt.Errorf("c08: %d questions", len(req.Question))
+	}
+
 	qname := req.Question[0].Name
 	sh, err = parseShape(qname)
 	if err != nil {
@@ -259,7 +334,7 @@ func buildResp(req *dns.Msg) (m *dns.Msg, sh shape, size int, err error) {
 	m.RecursionAvailable = true
 	m.Compress = true
 
-	opt := ownOPT(sh.OwnOPT)
+	opt := ownOPT(variant, req)
 	distribute(m, sh.Mix, nil, nil, opt)
 
 	base, err := packedLen(m)
